@@ -585,7 +585,9 @@ class C12:
             "many-connections": gen_many_conns(r, th),
             "resp3": gen_resp3(r),
             "quit": gen_quit(),
-            "every-registered-command": gen_all_commands(r, names, th),
+            # + a command the harness registers through the public AddCommand API (harness/wire: VERIFLEN, whose key function
+            # indexes past the end of a bare invocation): one reply — an error — and the process stays up
+            "every-registered-command": gen_all_commands(r, list(names) + ["VERIFLEN"], th),
             "stored-bytes-intact": gen_stored_bytes(r, th),
             "stored-bytes-intact-resp3": gen_stored_bytes(r, th, resp3=True),
         }
